@@ -116,7 +116,7 @@ func runCheck(id, tier string, rest []string) int {
 				keepLog(id, logf, out+".journal", fmt.Sprintf("w%d-timeout", i))
 			default:
 				// the worker died: decide from its journal and log what that means
-				last, tail := lastJournal(out+".journal"), tailFile(logf, 60)
+				last, tail := lastJournal(out+".journal"), crashExcerpt(logf)
 				sig, what := "", ""
 				if plan.CrashSig != nil {
 					sig, what = plan.CrashSig(last, tail)
@@ -285,10 +285,30 @@ func tailFile(path string, n int) string {
 	return strings.Join(readLines(path, n), "\n")
 }
 
+// crashExcerpt returns the part of a worker log that explains its death:
+// from the first panic / fatal line on (a full goroutine dump follows it, so
+// the tail of the file is not where the cause is).
+func crashExcerpt(path string) string {
+	lines := readLines(path, 200000)
+	for i, l := range lines {
+		if strings.HasPrefix(l, "panic:") || strings.HasPrefix(l, "fatal error:") || strings.Contains(l, "level=fatal") || strings.Contains(l, "[signal ") {
+			end := i + 45
+			if end > len(lines) {
+				end = len(lines)
+			}
+			return strings.Join(lines[i:end], "\n")
+		}
+	}
+	if len(lines) > 60 {
+		lines = lines[len(lines)-60:]
+	}
+	return strings.Join(lines, "\n")
+}
+
 func keepLog(id, logf, journal, tag string) {
 	dir := filepath.Join(evidenceRoot(), "replays", id)
 	os.MkdirAll(dir, 0755)
-	b := []byte(tailFile(logf, 300) + "\n--- journal ---\n" + tailFile(journal, 300))
+	b := []byte(crashExcerpt(logf) + "\n--- log tail ---\n" + tailFile(logf, 100) + "\n--- journal ---\n" + tailFile(journal, 300))
 	os.WriteFile(filepath.Join(dir, tag+".log"), b, 0644)
 }
 
